@@ -8,6 +8,7 @@ import (
 func init() {
 	replayers["C11"] = replayC11
 	replayers["C17"] = replayC17
+	replayers["C10"] = replayC10
 }
 
 // ---------------------------------------------------------------------------
@@ -208,4 +209,139 @@ func TestVerifReplayC17(t *testing.T) {
 	}
 	b.WriteString(trimOut(out))
 	return !passed && strings.Contains(out, "REPRODUCED"), b.String()
+}
+
+// ---------------------------------------------------------------------------
+// C10: hop limit (decreases obligations) and Authorization placement
+// (newRequestForRetry postconditions).  The replay drives the real client
+// against an httptest server.
+
+func replayC10(w *World, ob *Obligation, vc *VC) (bool, string) {
+	var b strings.Builder
+	switch {
+	case ob.Kind == "decreases":
+		pkg, test := "lfshttp", `package lfshttp
+
+import (
+	"net/http"
+	"net/http/httptest"
+	"sync/atomic"
+	"testing"
+)
+
+func TestVerifReplayC10(t *testing.T) {
+	var hits int32
+	var srv *httptest.Server
+	srv = httptest.NewServer(http.HandlerFunc(func(w http.ResponseWriter, r *http.Request) {
+		if atomic.AddInt32(&hits, 1) > 40 {
+			w.WriteHeader(200)
+			return
+		}
+		w.Header().Set("Location", srv.URL+"/again")
+		w.WriteHeader(307)
+	}))
+	defer srv.Close()
+	c, err := NewClient(nil)
+	if err != nil {
+		t.Fatal(err)
+	}
+	req, _ := http.NewRequest("GET", srv.URL+"/start", nil)
+	_, err = c.Do(req)
+	n := atomic.LoadInt32(&hits)
+	t.Logf("requests made: %d, err=%v", n, err)
+	if n > 4 {
+		t.Errorf("REPRODUCED: a redirect loop was followed for %d requests; the chain is not cut off after a small fixed number of hops", n)
+	}
+}
+`
+		if strings.Contains(ob.Func, "lfsapi") {
+			pkg = "lfsapi"
+			test = `package lfsapi
+
+import (
+	"net/http"
+	"net/http/httptest"
+	"sync/atomic"
+	"testing"
+
+	"github.com/git-lfs/git-lfs/v3/creds"
+	"github.com/git-lfs/git-lfs/v3/lfshttp"
+)
+
+func TestVerifReplayC10(t *testing.T) {
+	var hits int32
+	var srv *httptest.Server
+	srv = httptest.NewServer(http.HandlerFunc(func(w http.ResponseWriter, r *http.Request) {
+		if atomic.AddInt32(&hits, 1) > 40 {
+			w.WriteHeader(200)
+			return
+		}
+		w.Header().Set("Location", srv.URL+"/again")
+		w.WriteHeader(307)
+	}))
+	defer srv.Close()
+	c, err := NewClient(lfshttp.NewContext(nil, nil, map[string]string{"lfs.url": srv.URL}))
+	if err != nil {
+		t.Fatal(err)
+	}
+	req, _ := http.NewRequest("GET", srv.URL+"/start", nil)
+	_, err = c.DoWithAuth("", creds.NewAccess(creds.NoneAccess, srv.URL), req)
+	n := atomic.LoadInt32(&hits)
+	t.Logf("requests made: %d, err=%v", n, err)
+	if n > 4 {
+		t.Errorf("REPRODUCED: a redirect loop was followed for %d requests; the chain is not cut off after a small fixed number of hops", n)
+	}
+}
+`
+		}
+		out, passed, err := runOverlayTest(w.repoDir, pkg, "zz_verif_replay_test.go", test, "TestVerifReplayC10")
+		if err != nil {
+			return false, "replay could not run: " + err.Error() + "\n"
+		}
+		b.WriteString(trimOut(out))
+		return !passed && strings.Contains(out, "REPRODUCED"), b.String()
+	case strings.Contains(ob.Func, "newRequestForRetry") || strings.Contains(ob.Func, "DoWithRedirect"):
+		test := `package lfshttp
+
+import (
+	"net/http"
+	"testing"
+)
+
+func TestVerifReplayC10(t *testing.T) {
+	type tc struct{ from, to string }
+	cases := []tc{
+		{"https://h.example/a", "https://other.example/a"},
+		{"https://h.example/a", "https://h.example:80/a"},
+		{"https://h.example/a", "https://h.example:8443/a"},
+		{"https://h.example:443/a", "https://h.example/a"},
+		{"http://h.example/a", "http://h.example:443/a"},
+		{"https://h.example/a", "http://h.example/a"},
+		{"https://h.example/a", "https://H.example/a"},
+		{"https://h.example/a", "https://h.example/b"},
+	}
+	for _, c := range cases {
+		req, _ := http.NewRequest("GET", c.from, nil)
+		req.Header.Set("Authorization", "Basic c2VjcmV0")
+		nr, err := newRequestForRetry(req, c.to)
+		if err != nil {
+			continue
+		}
+		if req.URL.Scheme == "https" && nr.URL.Scheme == "http" {
+			t.Errorf("REPRODUCED: https request redirected to plain http: %s -> %s", c.from, c.to)
+		}
+		if nr.Header.Get("Authorization") != "" && nr.URL.Host != req.URL.Host {
+			t.Errorf("REPRODUCED: Authorization obtained for %s was placed on a request to %s", req.URL.Host, nr.URL.Host)
+		}
+	}
+}
+`
+		out, passed, err := runOverlayTest(w.repoDir, "lfshttp", "zz_verif_replay_test.go", test, "TestVerifReplayC10")
+		if err != nil {
+			return false, "replay could not run: " + err.Error() + "\n"
+		}
+		b.WriteString(trimOut(out))
+		return !passed && strings.Contains(out, "REPRODUCED"), b.String()
+	}
+	return false, "no replay template for this obligation\n"
 }
